@@ -1,13 +1,13 @@
 (* C05 -- AMF0 values round-trip and report their exact encoded size.
    Property theorems only; proofs are in Proofs/Amf0.v.  Model: Model/Amf0.v (amf0/amf0.go after
-   the two fix commits recorded in known_findings.txt).
+   the three fix commits recorded in known_findings.txt).
 
    Vocabulary: [enc] = MarshalBinary, [size] = Size(), [dec fuel p] = Discovery(p) followed by
    UnmarshalBinary(p), returning the value and its Size(); [decode p] = dec with the fuel
    length p + 1, which always suffices (c05_fuel).  [wf_amf v]: v is representable -- number bit
    patterns < 2^64, strings and keys <= 65535 bytes, ECMA count < 2^32, strict length < 2^32.
    Trees are arbitrary otherwise: any nesting, any key order, repeated and empty keys. *)
-From Verif Require Import Lib.Base Lib.Sx Model.Amf0 Proofs.Amf0 Proofs.Amf0Fast Proofs.Amf0Hist.
+From Verif Require Import Lib.Base Lib.Sx Model.Amf0 Proofs.Amf0 Proofs.Amf0Fast Proofs.Amf0Hist Proofs.Amf0Recv.
 Open Scope N_scope.
 
 (* 1. Marshalling yields exactly Size() bytes (every tree, no side condition). *)
@@ -150,6 +150,53 @@ Example c05_history_nonvacuous :
   h_run g0 ops = GCont mStrictArray 2 [([97], GLeaf AUndef); ([98], GCont mStrictArray 1 [([120], GLeaf (ABool true))])].
 Proof. exact history_example. Qed.
 
+(* 10. Receivers that ALREADY HOLD a value ([um_into old fuel p]: the UnmarshalBinary method of
+   old's type called on a value currently equal to old -- a scratch value reused between messages,
+   a value fetched with Get and updated in place, a defaulted field such as the "live" StreamType
+   of rtmp.NewPublishPacket).  The result never depends on what the receiver held: scalars are
+   overwritten, containers REPLACED (fix 8324535; they used to append) ... *)
+Theorem c05_unmarshal_overwrites old old' fuel p :
+  akind old = akind old' -> um_into old fuel p = um_into old' fuel p.
+Proof. exact (unmarshal_overwrites old old' fuel p). Qed.
+
+(* ... it is exactly what Discovery + UnmarshalBinary on a fresh value yields (so 3., 4. apply) ... *)
+Theorem c05_unmarshal_as_fresh old fuel p v n :
+  um_into old fuel p = Ok (v, n) -> dec (S fuel) p = Ok (v, n).
+Proof. exact (um_into_dec old fuel p v n). Qed.
+
+(* ... and Size() = bytes consumed for EVERY old value: the input splits as w ++ rest with
+   |w| = n = Size(), the new value has the receiver's type, and w decodes to it into any
+   receiver of that type whatever follows. *)
+Theorem c05_unmarshal_consumed old fuel p v n : um_into old fuel p = Ok (v, n) ->
+  akind v = akind old /\ n = size v /\
+  exists w rest, p = w ++ rest /\ lenN w = n /\
+    (forall old' rest' fuel', akind old' = akind old -> (length w <= fuel')%nat ->
+       um_into old' fuel' (w ++ rest') = Ok (v, n)).
+Proof. exact (um_into_consumed old fuel p v n). Qed.
+
+(* A stream of k values of one type decoded into ONE receiver, advancing by Size(), yields
+   every value in order and ends exactly at the end of the input, whatever the receiver held. *)
+Theorem c05_stream_aligned vs old n :
+  Forall (fun v => wf_amf v /\ akind v = akind old) vs -> (length vs < n)%nat ->
+  um_stream n old (concat (map enc vs)) = (map (fun v => (v, size v)) vs, 0).
+Proof. exact (stream_aligned vs old n). Qed.
+
+(* witnesses: before the fix (appending) Size() was 8 after a 4-byte object and a strict array
+   holding two elements read none of the two on the wire; now both are replaced.  And the String
+   "live" receiving 02 00 00 becomes the empty string of size 3. *)
+Theorem c05_unmarshal_append_witness :
+  um_cont_from mObject [([97], ANull)] 9 [3; 0;0;9] = Ok (AObj [([97], ANull)], 8) /\
+  um_cont_from mStrictArray [([97], ANull); ([98], ANull)] 20 [10; 0;0;0;2; 0;1;120;5; 0;1;121;6]
+    = Ok (AStrict [([97], ANull); ([98], ANull)], 13) /\
+  um_into (AObj [([97], ANull)]) 9 [3; 0;0;9] = Ok (AObj [], 4) /\
+  um_into (AStrict [([97], ANull); ([98], ANull)]) 20 [10; 0;0;0;2; 0;1;120;5; 0;1;121;6]
+    = Ok (AStrict [([120], ANull); ([121], AUndef)], 13).
+Proof. exact unmarshal_append_refuted. Qed.
+
+Example c05_unmarshal_live_then_empty :
+  um_into (AStr [108; 105; 118; 101]) 5 [2; 0; 0] = Ok (AStr [], 3).
+Proof. exact unmarshal_live_then_empty. Qed.
+
 (* non-vacuity: a representable tree with nesting, a repeated key, an empty key, a signalling NaN,
    -0, an ECMA array with a foreign count and a strict array with elements *)
 Example c05_nonvacuous :
@@ -177,3 +224,8 @@ Print Assumptions c05_history_invariant.
 Print Assumptions c05_history.
 Print Assumptions c05_history_set.
 Print Assumptions c05_history_unmarshal.
+Print Assumptions c05_unmarshal_overwrites.
+Print Assumptions c05_unmarshal_as_fresh.
+Print Assumptions c05_unmarshal_consumed.
+Print Assumptions c05_stream_aligned.
+Print Assumptions c05_unmarshal_append_witness.
